@@ -123,6 +123,30 @@ def parse_rows(text):
     return rows
 
 
+_INFO_RECORD = re.compile(r"^\s*(\[[^\]]{1,12}\])?\s*(DEBUG|INFO)\b")
+_ANY_RECORD = re.compile(r"^\s*(\[[^\]]{1,12}\])?\s*(WARNING|ERROR|CRITICAL)\b")
+
+
+def non_log_text(text):
+    """The output without informational log records. A record is a line that starts (after an optional time stamp) with
+    its level name, plus the indented continuation lines a long message is wrapped into."""
+    keep = []
+    in_record = False
+    for line in text.splitlines():
+        if _INFO_RECORD.match(line):
+            in_record = True
+            continue
+        if _ANY_RECORD.match(line):          # a record of a higher level (its time stamp is omitted within the same second)
+            in_record = False
+            keep.append(line)
+            continue
+        if in_record and (not line.strip() or line[:1] in (" ", "\t")):
+            continue
+        in_record = False
+        keep.append(line)
+    return "\n".join(keep)
+
+
 def row_matches(row, expected):
     """``expected`` (seven header values, or '...') appears in ``row``: equal, or an in-order subsequence of a wider row."""
     if expected == "..." or row == "...":
@@ -504,8 +528,9 @@ def run(ch, render=False):
                 if ctrs:
                     out.fail("packet_shown_for_bad_index", f"--packet {index} with {m} packets printed counters {ctrs[:12]} "
                                                            f"({desc})", "parse|shown_for_bad_index")
-                elif not "".join(l for l in _ANSI.sub("", text_all).splitlines()
-                                 if not re.search(r"\b(DEBUG|INFO)\b", l)).strip():        # informational log records aside
+                elif gopts and gopts[0] in ("-q", "--log-level") and gopts[-1] != "DEBUG":
+                    w.probe("out_of_range_message_unjudged_quiet")     # an answer given as a log record is silenced by these options
+                elif not non_log_text(_ANSI.sub("", text_all)).strip():        # informational log records aside
                     out.fail("no_out_of_range_message", f"--packet {index} with {m} packets printed nothing (log records aside): "
                                                         f"an out-of-range message is required ({desc})", "parse|no_message")
                 elif not _OOR.search(text_all):
